@@ -43,4 +43,22 @@ theorem rU32_tot {r r' : Rd} {v : Nat} (h : r.rU32 = some (v, r')) :
   simp at h2; obtain ⟨_, rfl⟩ := h2
   exact readN_tot h1
 
+/-- the reader moved forward inside the same buffer -/
+def Adv (r r' : Rd) : Prop := r'.cnt + r'.rem.length = r.cnt + r.rem.length ∧ r.cnt ≤ r'.cnt
+
+theorem Adv.refl (r : Rd) : Adv r r := ⟨rfl, Nat.le_refl _⟩
+theorem Adv.trans {a b c : Rd} (h1 : Adv a b) (h2 : Adv b c) : Adv a c :=
+  ⟨by rw [h2.1, h1.1], Nat.le_trans h1.2 h2.2⟩
+
+theorem adv_readN {r r' : Rd} {n : Nat} {b : Bytes} (h : r.readN n = some (b, r')) :
+    Adv r r' ∧ r'.cnt = r.cnt + n := by
+  have := readN_tot h; simp only [Rd.tot] at this; exact ⟨⟨this.1, by omega⟩, this.2⟩
+theorem adv_rU16 {r r' : Rd} {v : Nat} (h : r.rU16 = some (v, r')) :
+    Adv r r' ∧ r'.cnt = r.cnt + 2 := by
+  have := rU16_tot h; simp only [Rd.tot] at this; exact ⟨⟨this.1, by omega⟩, this.2⟩
+theorem adv_rU32 {r r' : Rd} {v : Nat} (h : r.rU32 = some (v, r')) :
+    Adv r r' ∧ r'.cnt = r.cnt + 4 := by
+  have := rU32_tot h; simp only [Rd.tot] at this; exact ⟨⟨this.1, by omega⟩, this.2⟩
+
+
 end Vflow
